@@ -189,6 +189,26 @@ def decodeInto (cfg : Cfg) (decode : Bool) (s : Sentence) : Res Sentence :=
     ok { s with message := some m }
   else ok s
 
+/-- `self.verify_and_extend_data(&ais_sentence)?; …`: continue with the new state, or return the error. -/
+def afterVerify (r : PState × Res Unit) (k : PState → PState × Res Frag) : PState × Res Frag :=
+  match r with
+  | (st2, ok ()) => k st2
+  | (st2, err e) => (st2, err e)
+  | (st2, panic p) => (st2, panic p)
+
+/-- The part of `AisParser::parse` after the sentence has been parsed and its checksum verified. -/
+def stepSentence (cfg : Cfg) (st : PState) (s : Sentence) (decode : Bool) : PState × Res Frag :=
+  if s.hasMore then
+    let st1 : PState := if s.fragment_number = 1 then ⟨s.message_id, 0, []⟩ else st
+    afterVerify (verifyAndExtend cfg st1 s) fun st2 => (st2, ok (.incomplete s))
+  else if s.isFragment then
+    afterVerify (verifyAndExtend cfg st s) fun st2 =>
+      let s' := { s with data := st2.data }
+      -- group delivered: buffer swapped out, id and counter reset (D2 fix)
+      (⟨none, 0, []⟩, (decodeInto cfg decode s').map Frag.complete)
+  else
+    (st, (decodeInto cfg decode s).map Frag.complete)
+
 /-- `AisParser::parse(&mut self, line, decode)`: new state and result. -/
 def step (cfg : Cfg) (st : PState) (line : Bytes) (decode : Bool) : PState × Res Frag :=
   match parseNmeaSentence cfg line with
@@ -198,24 +218,7 @@ def step (cfg : Cfg) (st : PState) (line : Bytes) (decode : Bool) : PState × Re
     match checkChecksum raw cks with
     | err e => (st, err e)
     | panic p => (st, panic p)
-    | ok () =>
-      if s.hasMore then
-        let st1 : PState := if s.fragment_number = 1 then ⟨s.message_id, 0, []⟩ else st
-        match verifyAndExtend cfg st1 s with
-        | (st2, ok ()) => (st2, ok (.incomplete s))
-        | (st2, err e) => (st2, err e)
-        | (st2, panic p) => (st2, panic p)
-      else if s.isFragment then
-        match verifyAndExtend cfg st s with
-        | (st2, ok ()) =>
-          let s' := { s with data := st2.data }
-          -- group delivered: buffer swapped out, id and counter reset (D2 fix)
-          let st3 : PState := ⟨none, 0, []⟩
-          (st3, (decodeInto cfg decode s').map Frag.complete)
-        | (st2, err e) => (st2, err e)
-        | (st2, panic p) => (st2, panic p)
-      else
-        (st, (decodeInto cfg decode s).map Frag.complete)
+    | ok () => stepSentence cfg st s decode
 
 /-- Feed a list of lines; collect the results. -/
 def run (cfg : Cfg) (decode : Bool) : PState → List Bytes → List (Res Frag) × PState
